@@ -163,6 +163,8 @@ def do_roundtrip_ds(e):
     fmt = e["fmt"]
     bmap = {}
     ds = build_ds(e["before"], bmap, e.get("default_union", False))
+    for p, ns in e.get("prefixes", []):
+        ds.bind(p, URIRef(ns))
     e["before"] = ds_quads(ds)
     kw = {"operation": "add"} if fmt == "patch" else {}
     try:
